@@ -34,6 +34,8 @@ TRUSTED = [
     'C17: numpy dense linear algebra of the oracles (kron, matrix products, vdot)',
 ]
 ASSUMPTIONS = [
+    'band entries of the integrals are dyadic values 6e-5 .. 1.2e-7 (more than a decade above EQ_TOLERANCE = 1e-8); float32 inputs of '
+    'the robust stream: tolerance 1e-5',
     'integrals are real dyadic rationals (float arithmetic exact); states have rational amplitudes; float comparisons at 1e-9 '
     '(scaled by the total weight for truncation values); thresholds are placed away from the error values by a margin',
 ]
